@@ -1,6 +1,16 @@
 import CCVerif.Model.Json
+import CCVerif.Model.JsonDoc
 import Driver.Util
-/-! Driver ops for C10: leaf codecs next to the property (decoded value = original). -/
+import Driver.C16
+/-! Driver ops for C10: leaf codecs next to the property (decoded value = original), and the
+document level (`Model/JsonDoc.lean`):
+* `docsave form <hdr> <items>` / `docsave model <hdr> <items> <data>`: the abstract content of the
+  real object (wire form, see harness/c10_main.cpp) → rendering of `toJson content`; the harness
+  prints the rendering of the REAL document tree;
+* `docload form <tree>` / `docload model <analysis> <tree>`: a (possibly mutated) document tree →
+  observable content of `fromJson tree` (`none` = the loader throws); the harness prints the
+  observable content of the really loaded object. The recomputed typifications / statuses the
+  data part depends on are an input (`analysis`, read from the loaded object). -/
 namespace Driver.C10
 open CCVerif.Json CCVerif.Translation Driver
 
@@ -14,8 +24,204 @@ def parseTr (s : String) : Tr :=
   if s == "-" then [] else
   (s.splitOn ",").filterMap fun p => match p.splitOn ">" with | [a, b] => some (parseNat a, parseNat b) | _ => none
 
+/-! ### document level -/
+section Doc
+open CCVerif.JsonDoc CCVerif.Core CCVerif.SDC
+
+def hexToString (h : String) : String :=
+  match String.fromUTF8? (ByteArray.mk ((parseHex h).map UInt8.ofNat).toArray) with
+  | some s => s
+  | none => "\uFFFD"
+def stringToHex (s : String) : String := toHex (s.toUTF8.toList.map (·.toNat))
+
+partial def render : Json → String
+  | .null => "n"
+  | .bool b => if b then "t" else "f"
+  | .num n => "i" ++ toString n
+  | .str s => "s" ++ stringToHex s
+  | .arr xs => "[" ++ joinWith "," (xs.map render) ++ "]"
+  | .obj kvs => "{" ++ joinWith "," (kvs.map fun (k, v) => stringToHex k ++ ":" ++ render v) ++ "}"
+
+def isHexish (c : Char) : Bool := c.isDigit || ('a' ≤ c && c ≤ 'f') || c == '-'
+
+mutual
+partial def parseTree : List Char → Option (Json × List Char)
+  | 'n' :: rest => some (.null, rest)
+  | 't' :: rest => some (.bool true, rest)
+  | 'f' :: rest => some (.bool false, rest)
+  | 'i' :: rest =>
+    match C16.parseIntPrefix rest with
+    | some (n, rest') => some (.num n, rest')
+    | none => none
+  | 's' :: rest => some (.str (hexToString (String.ofList (rest.takeWhile isHexish))), rest.dropWhile isHexish)
+  | '[' :: ']' :: rest => some (.arr [], rest)
+  | '[' :: rest =>
+    match parseElems rest with
+    | some (xs, rest') => some (.arr xs, rest')
+    | none => none
+  | '{' :: '}' :: rest => some (.obj [], rest)
+  | '{' :: rest =>
+    match parseFields rest with
+    | some (kvs, rest') => some (.obj kvs, rest')
+    | none => none
+  | _ => none
+partial def parseElems (cs : List Char) : Option (List Json × List Char) :=
+  match parseTree cs with
+  | some (v, ',' :: rest) =>
+    match parseElems rest with
+    | some (vs, rest') => some (v :: vs, rest')
+    | none => none
+  | some (v, ']' :: rest) => some ([v], rest)
+  | _ => none
+partial def parseFields (cs : List Char) : Option (List (String × Json) × List Char) :=
+  let k := hexToString (String.ofList (cs.takeWhile isHexish))
+  match cs.dropWhile isHexish with
+  | ':' :: rest =>
+    match parseTree rest with
+    | some (v, ',' :: rest') =>
+      match parseFields rest' with
+      | some (kvs, rest'') => some ((k, v) :: kvs, rest'')
+      | none => none
+    | some (v, '}' :: rest') => some ([(k, v)], rest')
+    | _ => none
+  | _ => none
+end
+
+def readTree (s : String) : Option Json :=
+  match parseTree s.toList with
+  | some (j, []) => some j
+  | _ => none
+
+def kindOfCode (n : Nat) : CstType := (CstType.all.find? (·.code == n)).getD .base
+
+def readPairs (s : String) : List (String × String) :=
+  if s == "#" then [] else
+  (s.splitOn "+").filterMap fun p => match p.splitOn ":" with | [a, b] => some (hexToString a, hexToString b) | _ => none
+def showPairs (ps : List (String × String)) : String :=
+  if ps.isEmpty then "#" else joinWith "+" (ps.map fun (a, b) => stringToHex a ++ ":" ++ stringToHex b)
+
+def readTrack (s : String) : Option TrackingFlags :=
+  match s.toList with
+  | [a, t, d, c] => some { allowEdit := a == '1', term := t == '1', definition := d == '1', convention := c == '1' }
+  | _ => none
+def showTrack : Option TrackingFlags → String
+  | none => "-"
+  | some f => bit f.allowEdit ++ bit f.term ++ bit f.definition ++ bit f.convention
+
+def readRecord (s : String) : Option Record :=
+  match s.splitOn "," with
+  | [uid, kind, alias, conv, traw, tres, forms, formal, draw, dres, st, vc, typ, tree, args, track] =>
+    some { uid := parseNat uid, type := kindOfCode (parseNat kind), alias := hexToString alias, convention := hexToString conv,
+           term := { raw := hexToString traw, resolved := hexToString tres },
+           forms := (readPairs forms).map fun (a, b) => ⟨a, b⟩,
+           formal := hexToString formal,
+           definition := { raw := hexToString draw, resolved := hexToString dres },
+           parse := { status := (match st with | "1" => .verified | "2" => .incorrect | _ => .unknown),
+                      valueClass := (match vc with | "1" => .value | "2" => .props | _ => .invalid),
+                      typification := hexToString typ, syntaxTree := hexToString tree,
+                      args := (readPairs args).map fun (a, b) => ⟨a, b⟩ },
+           track := readTrack track }
+  | _ => none
+def readItems (s : String) : Option (List Record) :=
+  if s == "#" then some [] else (s.splitOn ";").mapM readRecord
+
+/-- observable fields only (the layout of the harness with `obsOnly`) -/
+def showRecordObs (r : Record) : String :=
+  joinWith "," [toString r.uid, toString r.type.code, stringToHex r.alias, stringToHex r.convention,
+    stringToHex r.term.raw, "-", showPairs (r.forms.map fun f => (f.tags, f.text)), stringToHex r.formal,
+    stringToHex r.definition.raw, "-", "0", "0", "-", "-", "#", showTrack r.track]
+def showItemsObs (rs : List Record) : String := if rs.isEmpty then "#" else joinWith ";" (rs.map showRecordObs)
+
+def readHdr (s : String) : String × String × String :=
+  match s.splitOn "," with
+  | [t, a, c] => (hexToString t, hexToString a, hexToString c)
+  | _ => ("?", "?", "?")
+def showHdr (t a c : String) : String := stringToHex t ++ "," ++ stringToHex a ++ "," ++ stringToHex c
+
+def readTexts (s : String) : Option TextInterp :=
+  if s == "-" then none else if s == "#" then some [] else
+  some ((s.splitOn "+").filterMap fun p => match p.splitOn ":" with | [k, v] => some (parseInt k, hexToString v) | _ => none)
+def showTexts : Option TextInterp → String
+  | none => "-"
+  | some [] => "#"
+  | some t => joinWith "+" (t.map fun p => s!"{p.1}:{stringToHex p.2}")
+
+def readEntry (s : String) : Option DataEntry :=
+  match s.splitOn "|" with
+  | [uid, wc, ty, val, texts, stmt] =>
+    some { uid := parseNat uid, wasCalc := wc == "1",
+           typif := if ty == "-" then none else C16.readTy ty,
+           sdata := if val == "-" then none else C16.readVal val,
+           texts := readTexts texts,
+           stmt := if stmt == "-" then none else some (stmt == "1") }
+  | _ => none
+def readData (s : String) : Option (List DataEntry) :=
+  if s == "#" then some [] else (s.splitOn ";").mapM readEntry
+
+partial def showTy : Ty → String
+  | .base id => id
+  | .coll b => "B(" ++ showTy b ++ ")"
+  | .tuple cs => "T(" ++ joinWith "," (cs.map showTy) ++ ")"
+
+def showEntry (e : DataEntry) : String :=
+  joinWith "|" [toString e.uid, bit e.wasCalc, (match e.typif with | some τ => showTy τ | none => "-"),
+    (match e.sdata with | some v => C16.showVal v | none => "-"), showTexts e.texts,
+    (match e.stmt with | some b => bit b | none => "-")]
+def showData (es : List DataEntry) : String := if es.isEmpty then "#" else joinWith ";" (es.map showEntry)
+
+/-- `uid|verified|type` rows -/
+def readAnalysis (s : String) : List (Nat × Bool × Option Ty) :=
+  if s == "#" then [] else
+  (s.splitOn ";").filterMap fun row => match row.splitOn "|" with
+    | [u, v, ty] => some (parseNat u, v == "1", if ty == "-" then none else C16.readTy ty)
+    | _ => none
+
+/-- loader inputs of the driver: no repeated uid / replaced alias occurs in the generated
+documents (a repeated uid makes `registerID` reject the constant "fresh" uid 0 → `none`) -/
+def envOf (an : List (Nat × Bool × Option Ty)) : Env :=
+  { fresh := fun _ => 0
+    rename := fun _ _ r => r
+    analyse := fun _ u => { parse := { status := if (an.find? (·.1 == u)).any (·.2.1) then .verified else .unknown } }
+    typif := fun _ u => (an.find? (·.1 == u)).bind (·.2.2) }
+
+def handleDoc (args : List String) : String :=
+  match args with
+  | ["docsave", "form", hdr, items] =>
+    match readItems items with
+    | some rs =>
+      let (t, a, c) := readHdr hdr
+      s!"{render (Schema.toJson { title := t, alias := a, comment := c, items := rs })}\tx"
+    | none => "bad-arg\tn/a"
+  | ["docsave", "model", hdr, items, data] =>
+    match readItems items, readData data with
+    | some rs, some ds =>
+      let (t, a, c) := readHdr hdr
+      match Model.toJson { title := t, alias := a, comment := c, items := rs, data := ds } with
+      | some j => s!"{render j}\tx"
+      | none => "stuck\tx"
+    | _, _ => "bad-arg\tn/a"
+  | ["docload", "form", doc] =>
+    match readTree doc with
+    | some j =>
+      match Schema.fromJson (envOf []) j with
+      | some c => s!"{showHdr c.title c.alias c.comment} {showItemsObs c.items}\tx"
+      | none => "none\tx"
+    | none => "bad-arg\tn/a"
+  | ["docload", "model", an, doc] =>
+    match readTree doc with
+    | some j =>
+      match Model.fromJson (envOf (readAnalysis an)) j with
+      | some c => s!"{showHdr c.title c.alias c.comment} {showItemsObs c.items} {showData c.data}\tx"
+      | none => "none\tx"
+    | none => "bad-arg\tn/a"
+  | _ => "bad-op\tn/a"
+
+end Doc
+
 def handle (args : List String) : String :=
   match args with
+  | "docsave" :: _ => handleDoc args
+  | "docload" :: _ => handleDoc args
   | ["flags", a, t, d, c] =>
     let f : TrackingFlags := { allowEdit := a == "1", term := t == "1", definition := d == "1", convention := c == "1" }
     let rt := bit (TrackingFlags.fromJson f.toJson == some f)
